@@ -40,6 +40,8 @@ def rebin(a, newshape):
     slices = [slice(0, old, float(old) / new)
               for old, new in zip(a.shape, newshape)]
     coordinates = np.mgrid[slices]
+    # rounding of the float step old / new can make mgrid return one sample too many: keep the requested shape
+    coordinates = coordinates[(slice(None),) + tuple(slice(0, new) for new in newshape)]
     # choose the biggest smaller integer index
     indices = coordinates.astype('i')
     return a[tuple(indices)]
